@@ -102,7 +102,7 @@ Arguments mkState {S L} sh owner thr.
 
 (* ------------------------------------------------------------------------------------------
    Part 2: the discipline on the extracted IR *)
-Open Scope string_scope.
+Local Open Scope string_scope.
 
 Definition lookup (tbl : list method) (n : string) : option method :=
   find (fun m => String.eqb (m_name m) n) tbl.
@@ -172,8 +172,7 @@ Definition starts_with_copy (p : list event) : bool :=
   match p with
   | [Return] => true
   | CallWorker "Bytes" :: _ => true
-  | CallWorker "N" :: CallWorker "HashMatchAny" :: _ => true      (* MatchAny delegates *)
-  | _ => false
+  | _ => forallb (fun e => match e with CallWorker _ | Return => true | _ => false end) p   (* pure delegation: MatchAny *)
   end.
 
 Definition no_direct_array_access (p : list event) : bool :=
